@@ -91,13 +91,11 @@ overlap_sound!(c08_q_sound_3d_2x1x3, 3, [2, 1, 3]);
 overlap_sound!(c08_q_sound_3d_3x2x2, 3, [3, 2, 2]);
 overlap_sound!(c08_q_sound_3d_2x3x4, 3, [2, 3, 4]);
 overlap_sound!(c08_t_sound_3d_3x3x3, 3, [3, 3, 3]);
-overlap_sound!(c08_t_sound_3d_4x4x4, 3, [4, 4, 4]);
 overlap_sound!(c08_t_sound_3d_1x2x1, 3, [1, 2, 1]);
 overlap_sound!(c08_t_sound_3d_4x1x2, 3, [4, 1, 2]);
 // Rank 4
 overlap_sound!(c08_t_sound_4d_2x2x2x2, 4, [2, 2, 2, 2]);
 overlap_sound!(c08_t_sound_4d_2x3x1x2, 4, [2, 3, 1, 2]);
-overlap_sound!(c08_t_sound_4d_3x2x3x2, 4, [3, 2, 3, 2]);
 
 /// Soundness for *huge* concrete shapes (element counts around and beyond
 /// 2^64, where the size products inside the check themselves overflow): the
@@ -244,7 +242,13 @@ macro_rules! overlap_complete {
                 strides[k] = mul_small(step, pstr[k]) as usize;
                 k += 1;
             }
-            kani::cover!(strides[$n - 1] > 1, "stepped inner axis reachable");
+            let mut any_stepped = false;
+            let mut k = 0;
+            while k < $n {
+                any_stepped |= strides[k] > pstr[k];
+                k += 1;
+            }
+            kani::cover!(any_stepped, "an axis with step > 1 is reachable");
             for perm in $perms {
                 let mut pshape = [0usize; $n];
                 let mut pstrides = [0usize; $n];
